@@ -447,6 +447,7 @@ type Config struct {
 	ResetP    int      `json:"resetp"`    // driver: per-mille probability of World.Reset / DumpLoad per step
 	TypedObs  bool     `json:"typedobs"`  // register observers through Observer1..4 where the observed set allows
 	Arity     bool     `json:"arity"`     // driver: draw component sets from the instantiated tuples of all arities
+	BatchN    int      `json:"batchn"`    // driver: maximum size of NewBatch (default 5)
 	ObsP      int      `json:"obsp"`      // driver: per-mille probability of an observer operation per step
 	RegMax    int      `json:"regmax"`    // registry histories: register at most this many types (0: beyond the build's limit)
 	MapT      bool     `json:"mapt"`      // single-component operations through the hand-written ecs.Map[T] instead of Map1
